@@ -1784,12 +1784,12 @@ theorem anchoredFrag_wildcardNL (re : Re) (info : AnchoredLiteralInfo) (hf : Anc
   obtain ⟨_, first, lits, w, bridge, sfxRe, last, hsub, hfirst, hlast, hlits, hwild, hsfx, _, _, _, hnl, hbr, _⟩ := hf
   have hfirst' : isGreedyWildcard first = false := by
     unfold isStartAnchor at hfirst
-    simp only [Bool.or_eq_true, decide_eq_true_eq] at hfirst
-    apply isGreedyWildcard_false_of_op <;> rcases hfirst with h | h <;> rw [h] <;> exact fun hc => nomatch hc
+    simp only [decide_eq_true_eq] at hfirst
+    apply isGreedyWildcard_false_of_op <;> rw [hfirst] <;> exact fun hc => nomatch hc
   have hlast' : isGreedyWildcard last = false := by
     unfold isEndAnchor at hlast
-    simp only [Bool.or_eq_true, decide_eq_true_eq] at hlast
-    apply isGreedyWildcard_false_of_op <;> rcases hlast with h | h <;> rw [h] <;> exact fun hc => nomatch hc
+    simp only [decide_eq_true_eq] at hlast
+    apply isGreedyWildcard_false_of_op <;> rw [hlast] <;> exact fun hc => nomatch hc
   have hsfx' : isGreedyWildcard sfxRe = false := by
     apply isGreedyWildcard_false_of_op <;> rw [hsfx.1] <;> exact fun hc => nomatch hc
   have hlits' : ∀ x ∈ lits, isGreedyWildcard x = false := by
